@@ -1105,6 +1105,33 @@ Lemma len_ctc_names : forall m, ctcs_closed m ->
   (List.length (ctc_names m) <= List.length (fnames m))%nat.
 Proof. intros m H. destruct (ctc_names_spec m H) as [Hnd Hin]. apply NoDup_incl_length; assumption. Qed.
 
+(* the metric keeps only the names of features (fm_metrics.extra_constraint_representativeness filters by
+   _features_by_name): duplicate-free and inside the feature names WHATEVER the constraints mention *)
+Lemma ctc_names_nodup : forall m, NoDup (ctc_names m).
+Proof.
+  intros m. unfold ctc_names.
+  assert (G : forall cs acc, NoDup acc ->
+              NoDup (fold_left (fun acc c => fold_left (fun a s => add_once s a) (ctc_features (c_ast c)) acc) cs acc)).
+  { induction cs as [|c cs IH]; intros acc Hnd; [exact Hnd|]. cbn [fold_left]. apply IH.
+    destruct (add_once_fold (fun _ => True) (ctc_features (c_ast c)) acc Hnd) as [Hnd' _];
+      [apply Forall_forall; intros; exact I | apply Forall_forall; intros; exact I | exact Hnd']. }
+  apply G. constructor.
+Qed.
+
+Lemma list_existsb_eq_In17 : forall s l, list_existsb_eq s l = true -> In s l.
+Proof.
+  intros s l. induction l as [|x xs IH]; cbn [list_existsb_eq]; [discriminate|].
+  intros H. apply orb_prop in H. destruct H as [H|H]; [left; symmetry; apply String.eqb_eq, H|right; apply IH, H].
+Qed.
+
+Lemma len_ctc_names_filtered : forall m,
+  (List.length (filter (fun s => list_existsb_eq s (fnames m)) (ctc_names m)) <= List.length (fnames m))%nat.
+Proof.
+  intros m. apply NoDup_incl_length.
+  - apply NoDup_filter, ctc_names_nodup.
+  - intros s Hs. apply filter_In in Hs. destruct Hs as [_ Hs]. apply list_existsb_eq_In17, Hs.
+Qed.
+
 Lemma fnames_nonempty : forall m, (1 <= List.length (fnames m))%nat.
 Proof. intros m. unfold fnames, feats, get_features. cbn [map List.length]. lia. Qed.
 
@@ -1145,10 +1172,9 @@ Proof. intros A a b H. inversion H. reflexivity. Qed.
 (* per metric: which hypothesis each ratio needs *)
 Theorem metric_ratio_in_range : forall m meth e z,
   (meth = "mandatory_features"%string \/ meth = "optional_features"%string -> wf_names (root m) = true) ->
-  (meth = "extra_constraint_representativeness"%string -> ctcs_closed m) ->
   metric m meth = Ok e -> me_ratio e = Some z -> (0 <= z <= 10000)%Z.
 Proof.
-  intros m meth e z Hwf Hclosed.
+  intros m meth e z Hwf.
   assert (L : forall nm l base parent level z,
             (List.length l <= List.length base)%nat ->
             me_ratio (listing meth nm l base parent level) = Some z -> (0 <= z <= 10000)%Z)
@@ -1189,7 +1215,7 @@ Proof.
   - (* extra_constraint_representativeness *)
     apply Ok_inj in Hm. subst e. unfold mk. cbn [me_ratio]. intros Hr. apply Some_inj in Hr. subst z.
     apply get_ratio_range; [|left; reflexivity].
-    pose proof (len_ctc_names m (Hclosed E)) as Hl. unfold ctc_names in Hl. unfold zlen. lia.
+    pose proof (len_ctc_names_filtered m) as Hl. unfold ctc_names in Hl. unfold zlen. lia.
 Qed.
 
 (* the whole report.
@@ -1200,11 +1226,10 @@ Qed.
    not features.  (The second defect found here, cardinality groups that were not feature groups
    -- model [ce_card] -- was fixed in the code: "Feature groups" uses [is_group_feature].)
    With the explicit hypothesis: *)
-Theorem report_ratios_in_range : forall m r e z, wf (root m) = true ->
-  ctcs_closed m ->
+Theorem report_ratios_in_range_full : forall m r e z, wf (root m) = true ->
   report m None = Ok r -> In e r -> me_ratio e = Some z -> (0 <= z <= 10000)%Z.
 Proof.
-  intros m r e z Hwf Hn Hr Hin Hz. unfold report in Hr. apply mapM_Forall2 in Hr.
+  intros m r e z Hwf Hr Hin Hz. unfold report in Hr. apply mapM_Forall2 in Hr.
   assert (Hex : exists meth, metric m meth = Ok e).
   { clear -Hr Hin. induction Hr as [|x y xs ys Hxy _ IH]; [contradiction|].
     destruct Hin as [<-|Hin]; [exists x; exact Hxy|apply IH, Hin]. }
@@ -1227,8 +1252,7 @@ Proof.
   destruct Hex as [meth Hm].
   rewrite (metric_method_name m meth e Hm) in Hnot. cbn [In] in Hnot.
   apply (metric_ratio_in_range m meth e z); auto.
-  - intros [H|H]; exfalso; apply Hnot; subst meth; auto 8.
-  - intros H; exfalso; apply Hnot; subst meth; auto 8.
+  intros [H|H]; exfalso; apply Hnot; subst meth; auto 8.
 Qed.
 
 
@@ -1283,22 +1307,16 @@ Proof.
   exists r. apply Ok_inj in E. subst r. split; [reflexivity|]. split; vm_compute; reflexivity.
 Qed.
 
-Theorem ratio_counterexample_names :
-  wf (root ce_names) = true /\
-  exists r e, report ce_names None = Ok r /\ In e r /\ me_ratio e = Some 20000%Z.
-Proof.
-  split; [vm_compute; reflexivity|].
-  apply (report_ratio_witness ce_names "extra_constraint_representativeness"). vm_compute. reflexivity.
-Qed.
+(* the former counterexample (a constraint naming something that is not a feature gave the ratio 2.0) is
+   gone since fm_metrics filters the names by the model's features *)
+Example ce_names_now_in_range :
+  wf (root ce_names) = true /\ report_ratio ce_names "extra_constraint_representativeness" = Some 0%Z.
+Proof. split; vm_compute; reflexivity. Qed.
 
-(* the statement of the task is refuted *)
-Theorem report_ratios_in_range_as_stated_is_false :
-  ~ (forall m r e z, wf (root m) = true -> report m None = Ok r -> In e r -> me_ratio e = Some z ->
-                     (0 <= z <= 10000)%Z).
-Proof.
-  intros H. destruct ratio_counterexample_names as (Hwf & r & e & Hr & Hin & Hz).
-  pose proof (H ce_names r e 20000%Z Hwf Hr Hin Hz). lia.
-Qed.
+Theorem report_ratios_in_range : forall m r e z, wf (root m) = true ->
+  ctcs_closed m ->
+  report m None = Ok r -> In e r -> me_ratio e = Some z -> (0 <= z <= 10000)%Z.
+Proof. intros m r e z Hwf _. apply report_ratios_in_range_full, Hwf. Qed.
 
 (* a witness: 7 features, a mandatory child next to an or-group under the root, two constraints *)
 Definition ex_model : fm :=
@@ -1364,7 +1382,7 @@ Print Assumptions metric_ratio_in_range.
 Print Assumptions report_ratios_in_range.
 Print Assumptions report_ratios_in_range_unconditional.
 Print Assumptions ce_card_fixed.
-Print Assumptions ratio_counterexample_names.
-Print Assumptions report_ratios_in_range_as_stated_is_false.
+Print Assumptions report_ratios_in_range_full.
+Print Assumptions ce_names_now_in_range.
 Print Assumptions ex_model_hypotheses.
 Print Assumptions ex_report.
